@@ -183,6 +183,9 @@ def toWire (env : Env) : Nat → Ty → GVal → Res WValue
       match mapRes (fun x => if elemNilBad e x then .error .bad else toWire env fuel e x) xs with
       | .ok ws => .ok (.list e.code ws)
       | .error er => .error er
+    | .set e, .nil => .ok (.set e.code [])        -- ranging over a nil Go map/slice: empty
+    | .sset e, .nil => .ok (.set e.code [])
+    | .map k v, .nil => .ok (.map k.code v.code [])
     | .set e, .set _ xs =>
       match mapRes (fun x => if elemNilBad e x then .error .bad else toWire env fuel e x) xs with
       | .ok ws => .ok (.set e.code ws)
